@@ -281,3 +281,39 @@ def diagnose_line(spec, diagcfg, tracefile, lineno, workdir, context_from=None, 
     r = tlc(spec, diagcfg, os.path.join(workdir, "diag"), env=e, timeout=600)
     mism = [p for p in r.prints if "MISMATCH" in p]
     return mism, snippet, r
+
+
+def linear_check(rep, spec, cfg, diagcfg, files, wd, context_marker=None, meta_line=True, timeout=7000, keyfn=None):
+    """Validate files with the trace spec; on rejection diagnose (DIAG config) the segment from the last
+    line starting with context_marker (or just the rejected line) and register a violation."""
+    res = validate_linear(spec, cfg, files, wd, timeout=timeout)
+    for d in res:
+        rep.add("states", d["states"])
+        rep.add("transitions", max(d["generated"] - 1, 0))
+        if d["ok"]:
+            rep.add("traces_validated_against_impl")
+            continue
+        ln = d["rejected_at"]
+        lines = open(d["file"]).read().split("\n")
+        start = ln
+        if context_marker:
+            while start > 1 and not lines[start - 1].startswith(context_marker):
+                start -= 1
+        sel = ([lines[0]] if meta_line and start > 1 else []) + lines[start - 1:ln]
+        snippet = os.path.join(wd, f"reject_{os.path.basename(d['file'])}_{ln}.ndjson")
+        with open(snippet, "w") as f:
+            f.write("\n".join(sel) + "\n")
+        r = tlc(spec, diagcfg, os.path.join(wd, "diag"), env={"TRACE": snippet}, timeout=900)
+        mism = [p for p in r.prints if "MISMATCH" in p]
+        names = sorted(set(re.findall(r'"MISMATCH",\s*(?:<<\s*)?"([^"]+)"', " ".join(mism))))
+        key = keyfn(lines[ln - 1], names) if keyfn else "mismatch:" + ";".join(names)[:120] + ":" + lines[ln - 1][:120]
+        rep.violation(key, f"{spec} rejects line {ln} of {d['file']} ({', '.join(names) or 'no step enabled'}): "
+                      + "; ".join(m[:200] for m in mism[:2]), files=[snippet], text="\n".join(m[:3000] for m in mism[:20]))
+    return res
+
+
+def replay_linear(pid, spec, diagcfg, path):
+    for s in [f for f in os.listdir(path) if f.endswith(".ndjson")]:
+        r = tlc(spec, diagcfg, os.path.join(RUN, pid, "replay"), env={"TRACE": os.path.join(path, s)})
+        print("\n".join(r.prints) or "(no mismatch reproduced)")
+    return 0
